@@ -215,6 +215,40 @@ EXTRA_SETS: Dict[str, Dict[str, str]] = {
 }
 
 
+def _wide_package() -> Dict[str, str]:
+    """one package whose generated module is far beyond 64 KiB: 26 messages of 40 fields (scalars, repeated, optional, a map, a
+    reference to the previous message), no comments; and one message of 70 fields whose proto names are camelCase / capitals"""
+    kinds = ["int32", "string", "bool", "double", "bytes", "sint64", "fixed32", "uint64"]
+    out = ['syntax = "proto3";', "package vfwide.big;"]
+    for m in range(26):
+        fields = []
+        for i in range(1, 41):
+            k = kinds[(i + m) % len(kinds)]
+            if i % 10 == 0:
+                fields.append(f"  repeated {k} r{i} = {i};")
+            elif i % 10 == 5:
+                fields.append(f"  optional {k} o{i} = {i};")
+            elif i == 39:
+                fields.append(f"  map<string, {k}> m{i} = {i};")
+            elif i == 38 and m:
+                fields.append(f"  Rec{m - 1:04d} prev{i} = {i};")
+            else:
+                fields.append(f"  {k} f{i}_{m} = {i};")
+        out.append(f"message Rec{m:04d} {{")
+        out += fields
+        out.append("}")
+    names = ["HTTPStatus", "requestURL", "UserName", "userID", "APIKey", "isOK", "x_Y_z", "fooBarBaz", "Value", "ipV4Address"]
+    out.append("message WideNames {")
+    for i in range(1, 71):
+        nm = names[i - 1] if i <= len(names) else f"{names[i % len(names)]}{i}"
+        out.append(f"  {'string' if i % 2 else 'int32'} {nm} = {i};")
+    out.append("}")
+    return {"wide_big.proto": "\n".join(out) + "\n"}
+
+
+EXTRA_SETS["wide_package"] = _wide_package()
+
+
 def extra_names() -> List[str]:
     return sorted(EXTRA_SETS)
 
